@@ -1,1 +1,266 @@
 import Got.Model.Search
+import Got.Lemmas.Search
+/-
+C14 — sortx.Search returns the first match or the complement of the insertion point.
+
+Property theorems only (helper lemmas: Got/Lemmas/Search.lean). `search` is the model of the Go function
+(Got/Model/Search.lean); it returns the result together with the log of every predicate evaluation.
+
+`Consistent n less equal b` is "the list is sorted consistently with the predicates": `less` holds exactly
+on the prefix `[0,b)` (so `b` is the insertion point), and an element equal to the target is never in the
+less-prefix and everything between the insertion point and it is equal too.
+-/
+open Got.Model.Search Got.Lemmas.Search
+
+def C14_Consistent (n : Int) (less equal : Int → Bool) (b : Int) : Prop :=
+  0 ≤ b ∧ b ≤ n ∧
+  (∀ k, 0 ≤ k → k < n → (less k = true ↔ k < b)) ∧
+  (∀ k, 0 ≤ k → k < n → equal k = true → b ≤ k ∧ ∀ j, b ≤ j → j ≤ k → equal j = true)
+
+/-- Termination for ARBITRARY predicates (even inconsistent ones): the Go loop `for i+1 != j` always exits. -/
+theorem C14_terminates (n : Int) (less equal : Int → Bool) : (search n less equal).isSome = true := by
+  unfold search
+  split
+  · rfl
+  · have h := loop_isSome less (-1) n [] (by omega)
+    cases hl : loop less (-1) n [] with
+    | none => simp [hl] at h
+    | some p =>
+      obtain ⟨j, log⟩ := p
+      simp only []
+      split
+      · rfl
+      · split <;> rfl
+
+/-- An empty (or negative-length) list gives -1. -/
+theorem C14_empty (n : Int) (less equal : Int → Bool) (h : n ≤ 0) : search n less equal = some (-1, []) := by
+  simp [search, h]
+
+/-- Main result: on a consistent (sorted) input the answer is the insertion point `b` itself when the
+    element there equals the target, and the bitwise complement `^b = -b-1` otherwise. -/
+theorem C14_result (n : Int) (less equal : Int → Bool) (b : Int) (hn : 0 < n)
+    (hc : C14_Consistent n less equal b) (r : Int) (log : List Probe)
+    (hs : search n less equal = some (r, log)) :
+    (b < n ∧ equal b = true → r = b) ∧ (¬ (b < n ∧ equal b = true) → r = -b - 1) := by
+  obtain ⟨hb0, hbn, hless, _⟩ := hc
+  unfold search at hs
+  rw [if_neg (by omega)] at hs
+  cases hl : loop less (-1) n [] with
+  | none => simp [hl] at hs
+  | some p =>
+    obtain ⟨j, lg⟩ := p
+    have hj : j = b := loop_result less b (-1) n [] (fun k h1 h2 => hless k (by omega) h2) (by omega) hbn j lg hl
+    subst hj
+    simp only [hl] at hs
+    by_cases hjn : j = n
+    · simp [hjn, compl] at hs
+      constructor
+      · intro h; omega
+      · intro _; omega
+    · rw [if_neg hjn] at hs
+      by_cases he : equal j = true
+      · simp [he] at hs
+        exact ⟨fun _ => hs.1.symm, fun h => absurd ⟨by omega, he⟩ h⟩
+      · simp [he, compl] at hs
+        exact ⟨fun h => absurd h.2 he, fun _ => by omega⟩
+
+/-- If some element equals the target, the result is the index of the FIRST such element. -/
+theorem C14_first_match (n : Int) (less equal : Int → Bool) (b : Int) (hn : 0 < n)
+    (hc : C14_Consistent n less equal b) (r : Int) (log : List Probe)
+    (hs : search n less equal = some (r, log))
+    (k : Int) (hk0 : 0 ≤ k) (hkn : k < n) (hek : equal k = true) :
+    0 ≤ r ∧ r ≤ k ∧ equal r = true ∧ ∀ m, 0 ≤ m → m < r → equal m = false := by
+  have hc' := hc
+  obtain ⟨hb0, hbn, hless, heq⟩ := hc
+  obtain ⟨hbk, hrun⟩ := heq k hk0 hkn hek
+  have hbe : equal b = true := hrun b (by omega) hbk
+  have hr : r = b := (C14_result n less equal b hn hc' r log hs).1 ⟨by omega, hbe⟩
+  subst hr
+  refine ⟨hb0, hbk, hbe, ?_⟩
+  intro m hm0 hmr
+  cases hm : equal m with
+  | false => rfl
+  | true => have := (heq m hm0 (by omega) hm).1; omega
+
+/-- The result is negative exactly when no element equals the target, and then it is the complement of the
+    insertion point (inserting at `^r = -r-1` keeps the list sorted: everything before is less, nothing after is). -/
+theorem C14_absent (n : Int) (less equal : Int → Bool) (b : Int) (hn : 0 < n)
+    (hc : C14_Consistent n less equal b) (r : Int) (log : List Probe)
+    (hs : search n less equal = some (r, log)) :
+    (r < 0 ↔ ∀ k, 0 ≤ k → k < n → equal k = false) ∧ (r < 0 → -r - 1 = b) := by
+  have hres := C14_result n less equal b hn hc r log hs
+  obtain ⟨hb0, hbn, hless, heq⟩ := hc
+  by_cases hm : b < n ∧ equal b = true
+  · have hr := hres.1 hm
+    constructor
+    · constructor
+      · intro h; omega
+      · intro h; have := h b hb0 hm.1; simp [hm.2] at this
+    · intro h; omega
+  · have hr := hres.2 hm
+    constructor
+    · constructor
+      · intro _ k hk0 hkn
+        cases hk : equal k with
+        | false => rfl
+        | true =>
+          obtain ⟨hbk, hrun⟩ := heq k hk0 hkn hk
+          exact absurd ⟨by omega, hrun b (by omega) hbk⟩ hm
+      · intro _; omega
+    · intro _; omega
+
+/-- The predicates are evaluated only at valid indices `0 ≤ k < n` — for ARBITRARY predicates. -/
+theorem C14_probes_in_range (n : Int) (less equal : Int → Bool) (r : Int) (log : List Probe)
+    (hs : search n less equal = some (r, log)) : ∀ p ∈ log, 0 ≤ idx p ∧ idx p < n := by
+  unfold search at hs
+  split at hs
+  · simp at hs; obtain ⟨_, rfl⟩ := hs; simp
+  · rename_i hn
+    cases hl : loop less (-1) n [] with
+    | none => simp [hl] at hs
+    | some p =>
+      obtain ⟨j, lg⟩ := p
+      obtain ⟨hj1, hj2, hlg⟩ := loop_range less (-1) n [] (-1) n (by omega) (by omega) (by omega) (by simp) j lg hl
+      simp only [hl] at hs
+      have hlg' : ∀ p ∈ lg, 0 ≤ idx p ∧ idx p < n := fun p hp => ⟨by have := (hlg p hp).1; omega, (hlg p hp).2⟩
+      split at hs
+      · simp at hs; obtain ⟨_, rfl⟩ := hs; exact hlg'
+      · rename_i hjn
+        have hej : ∀ p ∈ lg ++ [Probe.equal j], 0 ≤ idx p ∧ idx p < n := by
+          intro p hp
+          rcases List.mem_append.mp hp with h | h
+          · exact hlg' p h
+          · simp at h; subst h; simp only [idx]; omega
+        split at hs <;> (simp at hs; obtain ⟨_, rfl⟩ := hs; exact hej)
+
+/-- O(log n): at most ⌈lg(n+1)⌉ evaluations of `less` (stated as: any `c` with `n+1 ≤ 2^c` bounds them) and at
+    most one evaluation of `equal` — for ARBITRARY predicates. -/
+theorem C14_probe_count (n : Int) (less equal : Int → Bool) (r : Int) (log : List Probe)
+    (hs : search n less equal = some (r, log)) (c : Nat) (hc : n + 1 ≤ (2 : Int) ^ c) :
+    countLess log ≤ c ∧ log.length ≤ countLess log + 1 := by
+  unfold search at hs
+  split at hs
+  · simp at hs; obtain ⟨_, rfl⟩ := hs; simp [countLess]
+  · rename_i hn
+    cases hl : loop less (-1) n [] with
+    | none => simp [hl] at hs
+    | some p =>
+      obtain ⟨j, lg⟩ := p
+      have hcnt := loop_count less c (-1) n [] (by omega) (by omega) j lg hl
+      obtain ⟨ext, he, hall⟩ := loop_log less (-1) n [] j lg hl
+      have hlen : lg.length = countLess lg := by
+        simp only [List.nil_append] at he; subst he
+        simp only [countLess]
+        rw [List.filter_eq_self.mpr hall]
+      simp only [hl] at hs
+      simp [countLess] at hcnt
+      split at hs
+      · simp at hs; obtain ⟨_, rfl⟩ := hs; exact ⟨hcnt, by omega⟩
+      · split at hs <;>
+        · simp at hs; obtain ⟨_, rfl⟩ := hs
+          rw [countLess_append]
+          have : countLess [Probe.equal j] = 0 := by simp [countLess, List.filter, isLess]
+          simp only [List.length_append, List.length_cons, List.length_nil]
+          simp only [countLess] at *
+          omega
+
+/-- The Go midpoint expression `int(uint(i+j)>>1)` computed on 64-bit words equals the model's `(i+j)/2`
+    whenever `0 ≤ i+j` (which the range invariant guarantees inside the loop: `-1 ≤ i`, `i+1 < j`). -/
+theorem C14_mid_bitvec (i j : BitVec 64) (h0 : 0 ≤ i.toInt + j.toInt) :
+    ((i + j) >>> 1).toInt = (i.toInt + j.toInt) / 2 := mid_bitvec i j h0
+
+/-- Instantiation ("a list sorted consistently with the supplied predicates"): for a list of integers sorted
+    in non-decreasing order and a target `x`, the predicates `less k = l[k] < x`, `equal k = l[k] = x` are
+    consistent with insertion point `b` = number of elements `< x`. -/
+theorem C14_sorted_list_consistent (l : List Int) (x : Int) (hs : l.Pairwise (· ≤ ·)) :
+    C14_Consistent l.length (fun k => decide (l.getD k.toNat 0 < x)) (fun k => decide (l.getD k.toNat 0 = x))
+      ((l.filter (· < x)).length) := by
+  induction l with
+  | nil =>
+    refine ⟨by simp, by simp, ?_, ?_⟩ <;> intro k h1 h2 <;> simp at h2 <;> omega
+  | cons a t ih =>
+    have hs' := (List.pairwise_cons.mp hs)
+    have iht := ih hs'.2
+    obtain ⟨h0, hle, hl, he⟩ := iht
+    have hfl : (t.filter (· < x)).length ≤ t.length := List.length_filter_le _ _
+    by_cases hax : a < x
+    · -- head is less: everything shifts by one
+      have hf : ((a :: t).filter (· < x)).length = (t.filter (· < x)).length + 1 := by simp [List.filter, hax]
+      refine ⟨by omega, by simp only [List.length_cons]; omega, ?_, ?_⟩
+      · intro k hk0 hkn
+        simp only [List.length_cons] at hkn
+        by_cases hk : k = 0
+        · subst hk; simp [hax]
+        · have hk1 : k.toNat = (k - 1).toNat + 1 := by omega
+          have := hl (k - 1) (by omega) (by omega)
+          simp only [hk1, List.getD_cons_succ, hf]
+          simp only [decide_eq_true_eq] at this ⊢
+          rw [this]; omega
+      · intro k hk0 hkn hek
+        simp only [List.length_cons] at hkn
+        by_cases hk : k = 0
+        · subst hk; simp at hek; omega
+        · have hk1 : k.toNat = (k - 1).toNat + 1 := by omega
+          simp only [hk1, List.getD_cons_succ] at hek
+          obtain ⟨hb, hrun⟩ := he (k - 1) (by omega) (by omega) hek
+          refine ⟨by omega, ?_⟩
+          intro j hbj hjk
+          have hj1 : j.toNat = (j - 1).toNat + 1 := by omega
+          simp only [hj1, List.getD_cons_succ]
+          exact hrun (j - 1) (by omega) (by omega)
+    · -- head is not less: nothing in the list is less (sorted), insertion point 0
+      have hall : ∀ y ∈ t, ¬ y < x := fun y hy => by have := hs'.1 y hy; omega
+      have hf0 : (t.filter (· < x)).length = 0 := by
+        rw [List.length_eq_zero_iff, List.filter_eq_nil_iff]; intro y hy; simpa using hall y hy
+      have hf : ((a :: t).filter (· < x)).length = 0 := by simp [List.filter, hax, hf0]
+      rw [hf]
+      have hget : ∀ k : Int, 0 ≤ k → k < (a :: t).length → ¬ (a :: t).getD k.toNat 0 < x := by
+        intro k hk0 hkn
+        simp only [List.length_cons] at hkn
+        by_cases hk : k = 0
+        · subst hk; simpa using hax
+        · have hk1 : k.toNat = (k - 1).toNat + 1 := by omega
+          simp only [hk1, List.getD_cons_succ]
+          have hlt : (k - 1).toNat < t.length := by omega
+          rw [List.getD_eq_getElem?_getD, List.getElem?_eq_getElem hlt, Option.getD_some]
+          exact hall _ (List.getElem_mem hlt)
+      refine ⟨by omega, by simp only [List.length_cons]; omega, ?_, ?_⟩
+      · intro k hk0 hkn
+        have := hget k hk0 hkn
+        simp only [decide_eq_true_eq]
+        constructor
+        · intro h; exact absurd h this
+        · intro h; omega
+      · intro k hk0 hkn hek
+        refine ⟨by omega, ?_⟩
+        intro j hj0 hjk
+        simp only [decide_eq_true_eq] at hek ⊢
+        -- sorted: l[j] ≤ l[k] = x and ¬ l[j] < x
+        have hjn : j < (a :: t).length := by omega
+        have h1 := hget j (by omega) hjn
+        have hjl : j.toNat < (a :: t).length := by omega
+        have hkl : k.toNat < (a :: t).length := by omega
+        rw [List.getD_eq_getElem?_getD, List.getElem?_eq_getElem hjl, Option.getD_some] at h1 ⊢
+        rw [List.getD_eq_getElem?_getD, List.getElem?_eq_getElem hkl, Option.getD_some] at hek
+        by_cases hjk' : j = k
+        · subst hjk'; exact hek
+        · have := List.pairwise_iff_getElem.mp hs j.toNat k.toNat hjl hkl (by omega)
+          omega
+
+/-- Non-vacuity: a concrete sorted list satisfies the hypotheses, and the model returns the documented answers
+    (first of a run of equals; complement of the insertion point). -/
+example : C14_Consistent ([1, 3, 3, 3, 7, 9] : List Int).length
+    (fun k => decide (([1, 3, 3, 3, 7, 9] : List Int).getD k.toNat 0 < 3))
+    (fun k => decide (([1, 3, 3, 3, 7, 9] : List Int).getD k.toNat 0 = 3))
+    ((([1, 3, 3, 3, 7, 9] : List Int).filter (· < 3)).length) :=
+  C14_sorted_list_consistent [1, 3, 3, 3, 7, 9] 3 (by decide)
+
+example : (([1, 3, 3, 3, 7, 9] : List Int).filter (· < 3)).length = 1 := by decide
+
+example : (search 6 (fun k => decide (([1, 3, 3, 3, 7, 9] : List Int).getD k.toNat 0 < 3))
+    (fun k => decide (([1, 3, 3, 3, 7, 9] : List Int).getD k.toNat 0 = 3))).map (·.1) = some 1 := by
+  simp +decide [search, loop]
+
+example : (search 6 (fun k => decide (([1, 3, 3, 3, 7, 9] : List Int).getD k.toNat 0 < 8))
+    (fun k => decide (([1, 3, 3, 3, 7, 9] : List Int).getD k.toNat 0 = 8))).map (·.1) = some (-6) := by
+  simp +decide [search, loop, compl]
